@@ -269,6 +269,20 @@ fn container_modules(out: &mut Vec<ZooModule>) {
                 Comp::new("u", Ty::int()).default(Lit::Int(1500)),
             ]),
         )
+        // DEFAULT kinds that generate compilable code only since 66a49a3 / cce119f (OCTET STRING, escapes, empty)
+        .def(
+            "Tdefaults2",
+            Ty::seq(vec![
+                Comp::new("o", Ty::oct(Size::Any)).default(Lit::Hex(vec![0xDE, 0xAD])),
+                Comp::new("oe", Ty::oct(Size::Range(0, Some(4), false))).default(Lit::Hex(vec![])),
+                Comp::new("s", Ty::string(Charset::Ia5, Size::Any)).default(Lit::Str("a\\b".into())),
+                Comp::new("t", Ty::string(Charset::Utf8, Size::Any)).default(Lit::Str(String::new())),
+                Comp::new("z", Ty::Bool),
+            ]),
+        )
+        // an inline element type of a top-level list has its own name since 736ee19
+        .def("Tsoinlenum", Ty::seq_of(Size::Range(0, Some(3), false), Ty::enum_n(3)))
+        .def("Tsoinlseq", Ty::seq_of(Size::Any, Ty::seq(vec![Comp::new("a", Ty::Bool), Comp::new("b", Ty::int_r(0, 7)).opt()])))
         .def("Tref1", Ty::r("Tref2"))
         .def("Tref2", Ty::r("Tinner"))
         .def("Tinline", Ty::seq(vec![Comp::new("pick", Ty::choice(vec![Alt::new("i", Ty::int_r(0, 7)), Alt::new("s", ia5(Size::Fix(2, false)))])), Comp::new("en", Ty::enum_n(3)).opt(), Comp::new("sq", Ty::seq(vec![Comp::new("z", Ty::Bool)]))]))
